@@ -14,6 +14,18 @@ CONSTANTS KF_TrailingSlash,  \* TRUE: the recorded finding "trailing-slash" is t
 Picks == ndJsonDeserialize("picks.ndjson")
 Indices == IF Source = "all" THEN 1..NItems ELSE {Picks[i] : i \in 1..Len(Picks)}
 
+\* input class of a case (coverage report of the driver; not part of any verdict)
+SpecialChars == {".", "+", "(", "?"}
+HasSpecial(seg) == \E i \in 1..Len(seg) : seg[i] \in SpecialChars
+Classes(it, r, e, x) ==
+    (IF e THEN {"engine-match"} ELSE {})
+    \cup (IF x /\ ~e THEN {"proxy-over-match"} ELSE {})
+    \cup (IF e /\ \E i \in 1..Len(it.pc.p) : ~IsParamC(it.pc.p[i]) /\ HasSpecial(it.pc.p[i]) THEN {"special-char-matched"} ELSE {})
+    \cup (IF e /\ \E i \in 1..Len(it.pc.p) : IsParamC(it.pc.p[i]) /\ ~ClassName(it.pc.p[i]) THEN {"odd-param-name-matched"} ELSE {})
+    \cup (IF e /\ Len(it.pc.p) > 0 /\ IsWildC(it.pc.p[Len(it.pc.p)]) /\ Len(r.uc.p) = Len(it.pc.p) - 1 THEN {"wildcard-zero-tail"} ELSE {})
+    \cup (IF e /\ it.ms = {} /\ r.mc = HEADc THEN {"no-method-filter-HEAD"} ELSE {})
+    \cup (IF e /\ r.ts THEN {"trailing-slash-matched"} ELSE {})
+
 Group(i) ==
     LET it   == ItemSeq[i]
         itp  == ItemP(it, "i1")
@@ -28,7 +40,8 @@ Group(i) ==
                         x == ProxyModel(it, reqs[k].mc, reqs[k].uc, reqs[k].ts)
                         obs == [engine |-> IF e THEN {"i1"} ELSE {}, proxy |-> x, manageAll |-> FALSE]
                     IN [engine |-> e, proxy |-> x, v |-> Verdict({itp}, ReqP(reqs[k]), obs),
-                        spells |-> Spells(itp, ReqP(reqs[k]))]]]
+                        spells |-> Spells(itp, ReqP(reqs[k])),
+                        cls |-> SetToSeq(Classes(it, reqs[k], e, x))]]]
 
 Count(g, v) == Cardinality({k \in 1..Len(g.reqs) : g.exp[k].v = v})
 Summary(g) == [bad |-> Count(g, "bad"), ts |-> Count(g, "trailing-slash"),
